@@ -46,6 +46,8 @@ const basePrelude = `(set-logic ALL)
 (assert (forall ((p Addr) (i Int)) (! (= (root (fld p i)) (root p)) :pattern ((fld p i)))))
 (assert (forall ((p Addr) (i Int)) (! (= (root (elem p i)) (root p)) :pattern ((elem p i)))))
 (declare-fun atype (Addr) Int)
+(declare-fun ix (Int Int) Int)
+(assert (forall ((o Int) (i Int)) (! (= (ix o i) (+ o i)) :pattern ((ix o i)))))
 (declare-fun slen_ (Str) Int)
 (declare-fun sat_ (Str Int) Int)
 (declare-fun slt_ (Str Str) Bool)
@@ -53,7 +55,7 @@ const basePrelude = `(set-logic ALL)
 (declare-fun ssub_ (Str Int Int) Str)
 (declare-const str_empty Str)
 (assert (= (slen_ str_empty) 0))
-(assert (forall ((s Str)) (! (and (>= (slen_ s) 0) (<= (slen_ s) 4611686018427387904)) :pattern ((slen_ s)))))
+(assert (forall ((s Str)) (! (and (>= (slen_ s) 0) (<= (slen_ s) 140737488355328)) :pattern ((slen_ s)))))
 (assert (forall ((s Str)) (! (=> (= (slen_ s) 0) (= s str_empty)) :pattern ((slen_ s)))))
 (assert (forall ((s Str) (i Int)) (! (and (<= 0 (sat_ s i)) (<= (sat_ s i) 255)) :pattern ((sat_ s i)))))
 (assert (forall ((a Str) (b Str)) (! (= (slen_ (sconcat_ a b)) (+ (slen_ a) (slen_ b))) :pattern ((sconcat_ a b)))))
